@@ -39,6 +39,24 @@ var cfKinds = []*Kind{
 	{Name: "Co", Jump: true, NeedL: true, Print: func(p *Printer, s *Stmt) { p.W("continue") }},
 	{Name: "Rt", Jump: true, EventFirst: true, Print: func(p *Printer, s *Stmt) { p.W("%s", p.Ret()) }},
 
+	// return with a non-nil operand: go-co evaluates the operand, ignores its value and ends the generator
+	{Name: "RtCall", Jump: true, EventFirst: true, Print: func(p *Printer, s *Stmt) {
+		p.RetExpr(fmt.Sprintf("func() %s { c.E(%d); return nil }()", p.IterT("int"), p.ID()))
+	}},
+	{Name: "RtIdx", Jump: true, EventFirst: true, Print: func(p *Printer, s *Stmt) {
+		p.W("k := c.I(%d) - 1", p.ID())
+		p.W("its := []%s{nil}", p.IterT("int"))
+		p.W("_, _ = k, its")
+		p.RetExpr("its[k]")
+	}},
+	{Name: "RtSel", Jump: true, EventFirst: true, Print: func(p *Printer, s *Stmt) {
+		p.W("var np *struct{ it %s }", p.IterT("int"))
+		p.W("if c.B(%d) {", p.ID())
+		p.W("\tnp = &struct{ it %s }{}", p.IterT("int"))
+		p.W("}")
+		p.W("_ = np")
+		p.RetExpr("np.it")
+	}},
 	{Name: "If", Arity: 1, EventFirst: true, Print: func(p *Printer, s *Stmt) {
 		p.W("if c.B(%d) {", p.ID())
 		p.Blk(s.Ch[0])
@@ -514,6 +532,42 @@ var injectKinds = []*Kind{
 		p.Blk(s.Ch[0])
 		p.W("}")
 	}},
+	{Name: "XElifInitY", Arity: 1, Yields: true, EventFirst: true, Print: func(p *Printer, s *Stmt) {
+		a := p.ID()
+		b := p.ID()
+		y := yieldStmt(p)
+		p.W("if c.B(%d) {", a)
+		p.W("\tc.E(%d)", b)
+		p.W("} else if %s; c.B(%d) {", y, p.ID())
+		p.Blk(s.Ch[0])
+		p.W("}")
+	}},
+	{Name: "XElifInitY2", Arity: 1, Yields: true, EventFirst: true, Print: func(p *Printer, s *Stmt) {
+		a := p.ID()
+		b := p.ID()
+		y := yieldStmt(p)
+		p.W("if c.B(%d) {", a)
+		p.W("\tc.E(%d)", b)
+		p.W("} else if c.B(%d) {", p.ID())
+		p.W("\tc.E(%d)", p.ID())
+		p.W("} else if %s; c.B(%d) {", y, p.ID())
+		p.Blk(s.Ch[0])
+		p.W("} else {")
+		p.W("\tc.E(%d)", p.ID())
+		p.W("}")
+	}},
+	{Name: "XSwInitInElif", Arity: 1, Yields: true, EventFirst: true, Print: func(p *Printer, s *Stmt) {
+		a := p.ID()
+		y := yieldStmt(p)
+		p.W("if c.B(%d) {", a)
+		p.W("} else {")
+		p.W("\tif %s; c.B(%d) {", y, p.ID())
+		p.In()
+		p.Blk(s.Ch[0])
+		p.Out()
+		p.W("\t}")
+		p.W("}")
+	}},
 	{Name: "XCloY", Yields: true, Print: func(p *Printer, s *Stmt) {
 		p.W("func() {")
 		p.W("\t%s", yieldStmt(p))
@@ -597,6 +651,7 @@ func InjectStmts() []*Stmt {
 		{K: "XRangePtrArr"},
 		{K: "XIfInitY", Ch: [][]*Stmt{{e}}}, {K: "XIfInitY", Ch: [][]*Stmt{{y}}},
 		{K: "XCloY"},
+		{K: "XElifInitY", Ch: [][]*Stmt{{e}}}, {K: "XElifInitY", Ch: [][]*Stmt{{y}}}, {K: "XElifInitY2", Ch: [][]*Stmt{{e}}}, {K: "XSwInitInElif", Ch: [][]*Stmt{{e}}},
 		{K: "NGoto"}, {K: "NLbl"}, {K: "NSelect"}, {K: "NDefer"}, {K: "NFall"}, {K: "NRangePtrArr"},
 	}
 }
